@@ -121,6 +121,29 @@ def gen_system(rng, size=None):
                 txt = 'structure %s = %s : %s' % (name, ' + '.join(snames), db)
             S.stmts.append(('sc', txt))
         S.complexes[name] = {'seq': list(names), 'sst': list(s), 'conc': conc}
+    # kernel complexes that use composite domains (and their complements) inside the kernel string
+    comps_avail = [n for n in S.strands if not n.endswith(tuple('_s%d' % j for j in range(9)))]
+    for i in range(rng.randint(0, 2) if comps_avail else 0):
+        q = rng.choice(comps_avail)
+        D = list(S.strands[q])
+        name = rng.choice(['K', 'W', 'hp']) + str(i)
+        variant = rng.choice('ABC')
+        x, y = rng.choice(alld), rng.choice(alld)
+        if variant == 'A':
+            names, sst, ktxt = [x] + D + [y], '.' * (len(D) + 2), '%s %s %s' % (x, q, y)
+        elif variant == 'B':
+            inner = [rng.choice(alld) for _ in range(rng.randint(0, 2))]
+            names = D + inner + [comp(d) for d in reversed(D)]
+            sst = '(' * len(D) + '.' * len(inner) + ')' * len(D)
+            ktxt = '%s( %s )' % (q, ' '.join(inner))
+        else:
+            names, sst, ktxt = [x] + [comp(d) for d in reversed(D)], '.' * (len(D) + 1), '%s %s*' % (x, q)
+        rots = set(ref.rotations(names, sst))
+        if rots & used_canon:
+            continue
+        used_canon |= rots
+        S.stmts.append(('kernel', '%s = %s' % (name, ktxt)))
+        S.complexes[name] = {'seq': list(names), 'sst': list(sst), 'conc': None}
     cnames = list(S.complexes)
     # macrostates
     for i in range(rng.randint(0, 2)):
